@@ -131,7 +131,7 @@ def run_paths(prop, tier):
         # random driver: larger documents and expressions, metamorphic union groups
         rnd = os.path.join(wd, "xp.rnd")
         C.run_harness_watched(["xp-record", "--seed", str(C.seed()), "--n", str(t["rnd"]), "--groups", str(t["groups"]),
-                               "--out", rnd], rnd)
+                               "--struct", str(t["groups"] if prop == "C07" else 0), "--out", rnd], rnd)
         with open(trace, "a") as f, open(rnd) as g:
             for line in g:
                 f.write(line)
@@ -151,11 +151,12 @@ def run_paths(prop, tier):
         out.rule = ("a replayed case is non-trivial if its expected value is a non-empty node-set or a scalar; "
                     "every case evaluates each of its spellings (6 quick / 12 thorough) on the real crates")
         out.assumptions = [
-            "documents: the pool of MC_XPath.tla (8 documents, <= 22 nodes: comments, PIs, attributes, mixed content, "
+            "documents: the pool of MC_XPath.tla (9 documents, <= 22 nodes: comments, PIs, attributes, mixed content, "
             "DOCTYPE with entity, CDATA/char-ref/entity-ref inside merged text runs, xml:lang, prefixed element and "
-            "attribute names with namespace nodes) plus seeded random documents (<= 30 nodes) from xp-record; "
-            "merged-text view only (the view xq/xe use)",
-            "expressions: the layered grammar of MC_XPath.tla (families p1 p2 un fl cmp fn ctx ns ar ar3) plus seeded "
+            "attribute names with namespace nodes, names that are axis/node-type/operator names; thorough: also every "
+            "<a> with <= 3 children of 7 shapes) plus seeded random documents (<= 30 nodes) from xp-record; merged-text "
+            "view (the view xq/xe use) and, for documents without CDATA/references in text, the raw view",
+            "expressions: the layered grammar of MC_XPath.tla (families p1 p2 un fl cmp fn ctx ns kw ar ar3, thorough g1) plus seeded "
             "random expressions of depth <= 4; no variables, no id(); caller bindings: 4 prefix maps incl. swapped "
             "prefixes and unbound prefixes (error expected)",
             "not exercised: the namespace axis (namespace nodes have no identity through the public DOM API), default "
